@@ -454,6 +454,14 @@ func C12(tier string) int {
 				adm["RDFLangString"] = maybe
 			}
 			judge(kk, embedded(o, kk, "https://x.example/e"), adm, p.Name)
+			if admitTypes[kk] && !o.Types[kk].Typeless {
+				// a value carrying several types is of each of them: the vocabulary type first or last
+				for vi, tl := range []L{{o.Types[kk].Name, "https://schema.example/Other"}, {"https://schema.example/Other", o.Types[kk].Name}, {"zz:A", o.Types[kk].Name, "zz:B"}} {
+					e := embedded(o, kk, "https://x.example/e")
+					e["type"] = tl
+					judge(fmt.Sprintf("%s/type-array-%d", kk, vi), e, adm, p.Name)
+				}
+			}
 		}
 		// functional vs list
 		doc := baseDoc(o, host)
@@ -506,7 +514,7 @@ func C12(tier string) int {
 
 	res.Extra["types"] = len(types)
 	res.Extra["properties"] = len(props)
-	res.Rule = fmt.Sprintf("(1) all %d x %d (type, property) pairs: a document of the type carrying a valid value under the property's JSON name, inspected through reflection (accessor exists & decoded  <=>  the ontology gives the type the property; otherwise kept unknown); (2) all %d properties x (%d type kinds + %d literal/junk samples + IRI): the element must report a kind its declared range admits for that lexical form, or none and keep the raw value; functional/list shape; natural-language maps; (3) typed accessors vs an independent evaluation over enumerated lexical grammars (durations, timestamps x zones, counts, booleans, floats, language maps, URIs); non-trivial = pairs the ontology says exist / kinds with a non-empty admissible set", len(types), len(props), len(props), len(types), len(litSamples))
+	res.Rule = fmt.Sprintf("(1) all %d x %d (type, property) pairs: a document of the type carrying a valid value under the property's JSON name, inspected through reflection (accessor exists & decoded  <=>  the ontology gives the type the property; otherwise kept unknown); (2) all %d properties x (%d type kinds, admitted ones also with a multi-valued type naming the vocabulary type first / last / in the middle, + %d literal/junk samples + IRI): the element must report a kind its declared range admits for that lexical form, or none and keep the raw value; functional/list shape; natural-language maps; (3) typed accessors vs an independent evaluation over enumerated lexical grammars (durations, timestamps x zones, counts, booleans, floats, language maps, URIs); non-trivial = pairs the ontology says exist / kinds with a non-empty admissible set", len(types), len(props), len(props), len(types), len(litSamples))
 	res.Assumptions = []string{"lexical acceptance marked 'maybe' (rfc kinds for arbitrary strings, 0/1 for booleans, timestamps without seconds, any object for a typeless type) allows both outcomes"}
 	return res.Finish()
 }
